@@ -282,13 +282,36 @@ CtlActs ==
     ACtlRmTgt(20, "ARGS_GET", SelKey(s_a)), ACtlRmTgt(30, "ARGS_POST", SelAll), ACtlRmTgt(30, "ARGS_GET", SelKey(s_A)),
     ACtlRmTgtTag("t2", "ARGS_GET", SelKey(s_a)), ACtlRmTgtMsg("m1", "ARGS_GET", SelKey(s_a)) }
 DirReqs == {ReqOfEntries(S) : S \in SUBSET {E("ARGS_GET", s_a, s_x), E("ARGS_GET", s_b, s_x), E("ARGS_POST", s_a, s_x), E("ARGS_GET", s_cc, s_1)}}
+\* a second base set about ORDER: a rule that jumps (skip:1), then rules whose ids are not in configuration order
+\* (99 sits between 25 and 30), so that removing 25 - or the range 25-30 - must leave 99 in place and must leave the
+\* jump counting the rules that still exist
+DirBase2 ==
+  << [MkRule(20, 2, <<RuleLink(<<TK("ARGS_GET", s_b)>>, << >>, OpLit("streq", s_x), FALSE, <<ASkip(1)>>)>>) EXCEPT !.tags = <<"t1">>],
+     [MkRule(25, 2, <<M("ARGS_GET", s_a)>>) EXCEPT !.tags = <<"t2">>, !.msg = "m3"],
+     MkRule(99, 2, <<M("ARGS_GET", s_a)>>),
+     [MkRule(30, 2, <<M("ARGS_GET", s_a)>>) EXCEPT !.tags = <<"t2">>],
+     MkRule(40, 2, <<M("ARGS_GET", s_a)>>) >>
+Directives2 == {WithIds(Dir("SecRuleRemoveById"), z) : z \in {[ids |-> <<25>>, lo |-> 0, hi |-> 0], [ids |-> << >>, lo |-> 25, hi |-> 30], [ids |-> <<30>>, lo |-> 20, hi |-> 25]}}
+               \cup {[Dir("SecRuleRemoveByTag") EXCEPT !.s = "t2"], [Dir("SecRuleRemoveByMsg") EXCEPT !.s = "m3"]}
+\* run-time counterparts: one ctl rule carrying one or two removals (overlapping ranges are stored one after the other)
+CtlActs2 == { <<ACtlRmId(25)>>, <<ACtlRmRange(25, 30)>>, <<ACtlRmRange(22, 27), ACtlRmRange(26, 32)>>, <<ACtlRmRange(26, 32), ACtlRmRange(22, 27)>>,
+              <<ACtlRmRange(20, 30), ACtlRmRange(25, 45)>>, <<ACtlRmTag("t2")>>, <<ACtlRmMsg("m3")>>, <<ACtlRmId(25), ACtlRmId(99)>> }
+DirReqs2 == {ReqOfEntries(S) : S \in SUBSET {E("ARGS_GET", s_a, s_x), E("ARGS_GET", s_b, s_x), E("ARGS_GET", s_cc, s_1)}}
+Pass1 == <<A("pass")>>
 DirPicks(two, slice, slices) ==
-  [kind : {"dir"}, d1 : SliceOf(Directives, slice, slices), d2 : IF two THEN Directives \cup {Dir("")} ELSE {Dir("")}, ctl : {A("pass")}, pos : {0}, rq : DirReqs]
-  \cup [kind : {"ctl"}, d1 : {Dir("")}, d2 : {Dir("")}, ctl : SliceOf(CtlActs, slice, slices), pos : {0, 2}, rq : DirReqs]
+  [kind : {"dir"}, d1 : SliceOf(Directives, slice, slices), d2 : IF two THEN Directives \cup {Dir("")} ELSE {Dir("")}, ctl : {A("pass")}, ctls : {Pass1}, pos : {0}, rq : DirReqs]
+  \cup [kind : {"ctl"}, d1 : {Dir("")}, d2 : {Dir("")}, ctl : SliceOf(CtlActs, slice, slices), ctls : {Pass1}, pos : {0, 2}, rq : DirReqs]
+  \cup [kind : {"dir2"}, d1 : SliceOf(Directives2, slice, slices), d2 : {Dir("")}, ctl : {A("pass")}, ctls : {Pass1}, pos : {0}, rq : DirReqs2]
+  \cup [kind : {"ctl2"}, d1 : {Dir("")}, d2 : {Dir("")}, ctl : {A("pass")}, ctls : SliceOf(CtlActs2, slice, slices), pos : {0}, rq : DirReqs2]
 \* the ctl rule fires iff the request carries ARGS_GET c
 CtlRule(act) == MkRule(5, 1, <<RuleLink(<<TK("ARGS_GET", s_cc)>>, << >>, Op("unconditionalMatch", << >>, FALSE), FALSE, <<act>>)>>)
+CtlRule2(acts) == MkRule(5, 1, <<RuleLink(<<TK("ARGS_GET", s_cc)>>, << >>, Op("unconditionalMatch", << >>, FALSE), FALSE, acts)>>)
 DirScen(pk) ==
-  IF pk.kind = "dir"
+  IF pk.kind = "dir2"
+    THEN [MkScen(DirBase2, pk.rq, "On") EXCEPT !.dirs = <<pk.d1>>]
+  ELSE IF pk.kind = "ctl2"
+    THEN MkScen(<<CtlRule2(pk.ctls)>> \o DirBase2, pk.rq, "On")
+  ELSE IF pk.kind = "dir"
     THEN [MkScen(DirBase, pk.rq, "On") EXCEPT !.dirs = SelectSeq(<<pk.d1, pk.d2>>, LAMBDA d : d.d # "")]
     ELSE MkScen(SubSeq(DirBase, 1, pk.pos) \o <<[CtlRule(pk.ctl) EXCEPT !.phase = IF pk.pos = 0 THEN 1 ELSE 2]>> \o SubSeq(DirBase, pk.pos + 1, Len(DirBase)), pk.rq, "On")
 
